@@ -1008,6 +1008,27 @@ func checkPackageNameSource(c *Ctx, rule string) {
 			missing = append(missing, k.Name())
 		}
 	}
+	// ... nor from a test file: an external test package (package x_test) has another package clause
+	exclTest := false
+	for _, f := range pathConds(info, parents(fd), chosen) {
+		ast.Inspect(f.e, func(m ast.Node) bool {
+			call, ok := m.(*ast.CallExpr)
+			if !ok || len(call.Args) != 2 {
+				return true
+			}
+			if full := fullName(calleeFunc(info, call)); full == "strings.HasSuffix" || full == "strings.Contains" || full == "path/filepath.Match" {
+				for _, a := range call.Args {
+					if sv, ok := constString(info, a); ok && strings.Contains(sv, "_test") && f.neg {
+						exclTest = true
+					}
+				}
+			}
+			return true
+		})
+	}
+	c.check(exclTest, rule, "codegen.context.PreParseGo/not-a-test-file", p.Pos(fd.Pos()),
+		"the file the package name is read from is never a _test.go file (an external test package has another package clause)",
+		"the package name can be read from a _test.go file: `package x_test` in a test file makes lox write that name into the generated files, which then do not compile with the package")
 	c.check(len(missing) == 0 && len(consts) >= 3, rule, construct, p.Pos(fd.Pos()),
 		fmt.Sprintf("the file the package name is read from is never one of the %d generated files (a stale one could carry another package name)", len(consts)),
 		fmt.Sprintf("the package name can be read from generated file(s) %v left by an earlier run: output then depends on the directory's history", missing))
